@@ -491,6 +491,11 @@ def traceback(ctx):
     fa = E.fa(p)
     S = Sym(E, fa)
     pushes = calls_named(fa, "push")
+    succ = [(b, t) for b, t in fa.calls()
+            if any(strip_generics(x).endswith("iter::successors") for x in callee_paths(t))]
+    if not pushes and len(succ) == 1:
+        traceback_successors(ctx, crate, E, fa, S, p, succ[0])
+        return
     if len(pushes) != 1:
         raise EngineError("TRACEBACK: expected one push in append_top_nodes")
     pb, pt = pushes[0]
@@ -559,6 +564,165 @@ def traceback(ctx):
     ctx.ob("TRACEBACK", "append_top_nodes|pushes-(end,node)", okt, fa.loc(pb),
            "the reported pair is (boundary where the node ends, node)" if okt else
            "pushed value is %s" % show(tup))
+
+
+def traceback_successors(ctx, crate, E, fa, S, p, sc):
+    """The back-walk written as `top_nodes.extend(successors(first, step).map(..))`: the same
+    obligations, read from the first element, the step closure and the node fetches."""
+    from sym import strip_casts as sc_
+    sb, st = sc
+    loc = fa.loc(sb)
+    region = [p] + sorted(q for q in crate.fns if q.startswith(p + "::{closure") and crate.fns[q].body)
+
+    def nonzero_start(e):
+        """`X.start_node != 0` -> the access path X.start_node"""
+        if e[0] == "binop" and e[1] == "Ne" and ("const", 0) in (e[2], e[3]):
+            o = e[2] if e[3] == ("const", 0) else e[3]
+            if o[0] == "ap" and o[1].proj[-1:] == ("start_node",):
+                return o[1]
+        return None
+
+    def guarded_option(qa, QS, e, op):
+        """the Option value is Some only when `X.start_node != 0`: returns X.start_node or None"""
+        e = sc_(e) if e[0] == "cast" else e
+        if e[0] == "call" and short(e[1]) in ("then", "then_some") and e[2]:
+            return nonzero_start(e[2][0])
+        # built by branches: every Some lies behind the non-zero edge of such a test
+        pl = op_place(op)
+        somes = []
+        if pl is not None and not pl["p"]:
+            from flow import value_defs
+            for (b, kind, payload) in value_defs(qa, pl["l"]):
+                if kind == "assign" and payload["k"] == "agg" and str(payload.get("adt", "")).endswith("Option") \
+                        and payload.get("variant") == "Some":
+                    somes.append(b)
+                elif kind == "assign" and payload["k"] == "agg" and payload.get("variant") == "None":
+                    pass
+                else:
+                    return None
+        if not somes:
+            return None
+        from mir import FnA
+        for gb in sorted(qa.live_blocks()):
+            gt = qa.term(gb)
+            if gt["k"] != "switch":
+                continue
+            ge = QS.operand(gt["op"])
+            neg = False
+            if ge[0] == "binop" and ge[1] == "Eq" and ("const", 0) in (ge[2], ge[3]):
+                ge = ("binop", "Ne", ge[2], ge[3])
+                neg = True
+            ap = nonzero_start(ge)
+            if ap is None:
+                continue
+            f_t, t_t = bool_switch_targets(gt)
+            nz = f_t if neg else t_t
+            qa2 = FnA(qa.fn, removed={(gb, nz)})
+            if all(b not in qa2.reachable(0) for b in somes):
+                return ap
+        return None
+    # --- the node fetches: (position, index) pairs used to read ends[position][index]
+    fetchers = {}
+    pairs = []
+    for q in region:
+        qa = E.fa(q)
+        QS = Sym(E, qa)
+        outer, inner = [], []
+        for b, t in qa.calls():
+            if not any(strip_generics(x).endswith("Index::index") for x in callee_paths(t)) or len(t["args"]) != 2:
+                continue
+            ap = E.ap_operand(qa, t["args"][0])
+            if ap is None:
+                continue
+            pr = tuple(str(x) for x in ap.proj)
+            if pr[-1:] == ("ends",):
+                outer.append(QS.operand(t["args"][1]))
+            elif pr[-2:] == ("ends", "[]"):
+                inner.append(sc_(QS.operand(t["args"][1])))
+        if len(outer) != len(inner) or len(outer) > 1:
+            raise EngineError("TRACEBACK: %s reads ends[..][..] in a way that is not one (position, index) pair" % q)
+        if outer:
+            pr = (outer[0], inner[0])
+            if q != p and all(x[0] == "ap" and x[1].root[0] == "arg" and not x[1].proj for x in pr):
+                fetchers[q] = (pr[0][1].root[1], pr[1][1].root[1])      # parameter numbers
+            else:
+                pairs.append((pr[0], pr[1], qa.loc(0)))
+    for q in region:
+        qa = E.fa(q)
+        QS = Sym(E, qa)
+        for b, t in qa.calls():
+            cp = (callee_of(t) or {})
+            rp = (cp.get("resolved") or cp).get("path")
+            if rp in fetchers and len(t["args"]) == 2:
+                tup = QS.operand(t["args"][1])
+                if tup[0] == "agg" and len(tup[2]) >= 2:
+                    a, bidx = fetchers[rp]
+                    # closure parameters are numbered from 2 (1 is the closure itself)
+                    pairs.append((tup[2].get(str(a - 2)), sc_(tup[2].get(str(bidx - 2))), qa.loc(b)))
+    ctx.ob("TRACEBACK", "append_top_nodes|reads-ends", bool(pairs), loc,
+           "the back-walk reads one node list per step (%d fetch sites)" % len(pairs) if pairs else
+           "no read of ends[position][index] found in the back-walk")
+    if not pairs:
+        return
+    eos_pairs, node_pairs, bad = [], [], []
+    for a, bidx, where in pairs:
+        okp = a is not None and bidx is not None and a[0] == "ap" and bidx[0] == "ap" and \
+            a[1].proj[-1:] == ("start_node",) and bidx[1].proj[-1:] == ("min_idx",) and \
+            a[1].root == bidx[1].root and a[1].proj[:-1] == bidx[1].proj[:-1]
+        if not okp:
+            bad.append((show(a) if a else "?", show(bidx) if bidx else "?", where))
+        elif "eos" in [str(x) for x in a[1].proj] or (a[1].root[0] == "arg" and a[1].root[1] == 1 and
+                                                     q != p and "eos" in str(a[1])):
+            eos_pairs.append(a)
+        else:
+            node_pairs.append(a)
+    # a captured eos shows up as a capture field; tell the two kinds apart by the first element
+    first = S.operand(st["args"][0])
+    g1 = guarded_option(fa, S, first, st["args"][0])
+    ctx.ob("TRACEBACK", "append_top_nodes|starts-at-eos.start_node",
+           not bad and g1 is not None and "eos" in [str(x) for x in g1.proj], loc,
+           "the walk starts at the boundary EOS was connected to (eos.start_node, eos.min_idx)"
+           if not bad and g1 is not None else
+           "the first element of the walk is not the node at (eos.start_node, eos.min_idx): %s" % (bad[:2] or show(first)[:80]))
+    ctx.ob("TRACEBACK", "append_top_nodes|follows-start_node", not bad and len(pairs) >= 2, loc,
+           "each step continues at (node.start_node, node.min_idx) of the node just reported"
+           if not bad and len(pairs) >= 2 else
+           "a step of the walk does not read ends[node.start_node][node.min_idx]: %s" % bad[:2])
+    # --- nothing is reported once the boundary is 0
+    cl = E.closure_of_operand(fa, st["args"][1]) if len(st["args"]) > 1 else None
+    g2 = None
+    if cl is not None:
+        cfa = E.fa(cl[0])
+        CS = Sym(E, cfa)
+        g2 = guarded_option(cfa, CS, CS.place({"l": 0, "p": []}), {"c": {"l": 0, "p": []}})
+    okg = g1 is not None and g2 is not None
+    ctx.ob("TRACEBACK", "append_top_nodes|push-guarded-by-position!=0", okg, loc,
+           "a node is reported only after testing that its boundary is not 0: the first element "
+           "exists only when eos.start_node != 0 and the step ends when node.start_node is 0 (BOS is "
+           "never reported; an EOS hanging directly off BOS yields no token)" if okg else
+           "%s: with EOS connected directly to BOS (sentence of ignored spaces only) BOS would be "
+           "reported and the walk would run out of range"
+           % ("the first element of the walk is fetched without testing eos.start_node != 0" if g1 is None
+              else "the step does not end the walk when node.start_node is 0"))
+    # --- what is appended: (boundary, node)
+    okt = None
+    ext = [t for b, t in calls_named(fa, "extend")]
+    if ext:
+        o = fa.origin(ext[0]["args"][1]) if len(ext[0]["args"]) > 1 else ("?",)
+        if o[0] == "call" and any(strip_generics(x).endswith("::map") for x in callee_paths(o[2])):
+            mc = E.closure_of_operand(fa, o[2]["args"][1])
+            if mc is not None:
+                mfa = E.fa(mc[0])
+                MS = Sym(E, mfa)
+                r = MS.place({"l": 0, "p": []})
+                okt = r[0] == "agg" and r[2].get("0") == ("ap", AP(("arg", 2), ("#0",))) and \
+                    sc_(r[2].get("1", ("?",))) in (("ap", AP(("arg", 2), ("#1",))),) or \
+                    (r[0] == "agg" and r[2].get("0") == ("ap", AP(("arg", 2), ("#0",))) and
+                     r[2].get("1", ("?",))[0] == "call" and short(r[2]["1"][1]) == "clone")
+    if okt is not None:
+        ctx.ob("TRACEBACK", "append_top_nodes|pushes-(end,node)", okt, loc,
+               "the reported pair is (boundary where the node ends, node)" if okt else
+               "the walk does not append (boundary, node) pairs")
 
 
 def pred(ctx):
